@@ -23,6 +23,9 @@ type errManyToManyMatch struct {
 	sampleID          uint64
 	duplicateSampleID uint64
 	side              binOpSide
+	// manyToOne is set when several series of the left side matched one series of
+	// the right side in a one-to-one match.
+	manyToOne bool
 }
 
 func newManyToManyMatchError(sampleID, duplicateSampleID uint64, side binOpSide) *errManyToManyMatch {
@@ -115,6 +118,7 @@ func (t *table) execBinaryOperation(lhs model.StepVector, rhs model.StepVector, 
 	for i, sampleID := range rhs.SampleIDs {
 		rhVal := rhs.Samples[i]
 		outputSampleIDs := rhsIndex.outputSamples(sampleID)
+		matches := 0
 		for _, outputSampleID := range outputSampleIDs {
 			outputSample := t.outputValues[outputSampleID]
 			if rhs.T != outputSample.lhT {
@@ -138,6 +142,12 @@ func (t *table) execBinaryOperation(lhs model.StepVector, rhs model.StepVector, 
 			}
 			step.SampleIDs = append(step.SampleIDs, outputSampleID)
 			step.Samples = append(step.Samples, outputVal)
+			// Same as the Prometheus engine: in a one-to-one match a series of the
+			// right side can produce at most one result per step.
+			matches++
+			if t.card == parser.CardOneToOne && matches > 1 {
+				return model.StepVector{}, &errManyToManyMatch{manyToOne: true}
+			}
 		}
 	}
 
